@@ -3,7 +3,7 @@
 import json, sys
 pid = sys.argv[1]
 p = next(json.loads(l) for l in open('/verif/properties.jsonl') if json.loads(l)['id'] == pid)
-wt = "/tmp/mut/" + pid
+wt = (sys.argv[2] if len(sys.argv) > 2 else "/tmp/mut/" + pid)
 print(f"""You are helping test a verification effort by playing the role of a developer who introduces a subtle regression.
 
 Repository: GlyphLang (a Go-implemented backend DSL). You have your OWN scratch git worktree of it at {wt} (already created; work ONLY inside it; never touch /repo or /verif, never read anything under /verif).
